@@ -269,7 +269,7 @@ def l6_l9(prog, ctx):
     flt = a[2]
     if cmp_.k == "DeclRefExpr" and cmp_.j.get("name") == "alphasort":
         ctx.ok("L7", "drop-ins of one directory are sorted by name", sc[0].where, "scandir(..., alphasort): strcoll order = byte order under the C/POSIX collation")
-    elif cmp_.is_null_const():
+    elif a[3].is_null_const():
         ctx.fail("L7", "drop-ins of one directory are sorted by name", sc[0].where, "no comparator: directory order is arbitrary", key="sort-none")
     elif cmp_.k == "DeclRefExpr" and cmp_.j.get("name") == "versionsort":
         ctx.fail("L7", "drop-ins of one directory are sorted by name", sc[0].where, "versionsort orders 10-x after 9-x: not byte-wise name order", key="sort-version")
